@@ -743,7 +743,7 @@ func newRand(seed uint64) *rand.Rand { return rand.New(rand.NewPCG(seed, 0x5eed)
 
 func Gen(profile string, seed uint64, thorough bool) *Scenario {
 	switch profile {
-	case "map", "atomic", "crypt":
+	case "map", "atomic", "crypt", "recover":
 		return genSsim(profile, seed, thorough)
 	case "growth":
 		return genGrowth(seed, thorough)
